@@ -116,6 +116,16 @@ CLAIMS = {
                 'index < count; Python tests optional index/hash arguments against None (0 is a legitimate value), reaches both C removal functions and processes the C messages.',
         not_decided='histories against a list model; stale lookup tables after particular removal orders; Python container semantics beyond delegation',
         design_ref='3/C14'),
+    'C15': dict(
+        module='c15', level='other',
+        technique='pattern/agreement checks over the clang AST: wrap-loop guard/update agreement, encoder/decoder agreement of the octant and root-box index, call-order check of a step, component isomorphism',
+        decided='every periodic/shear wrap loop compares a coordinate with the matching face of the box in the same component and moves it by one box length with the matching sign '
+                '(radial shear wrap: y by the shear offset and vy by +-3/2 OMEGA Lx, nothing else); the open boundary marks exactly the six outside half spaces and re-examines the slot after a swap-removal '
+                'iff the loop runs forwards; ghost-box images are component-isomorphic and the shear image differs only in y and vy; the octant encoder and the child-cell geometry agree on component, bit and side; '
+                'the root-box coordinates use their own component and the flattened index is a well-formed mixed radix whose strides are the ranges of the lower coordinates, equal to the root-cell geometry in tree.c; '
+                'a step runs boundary check, tree update, gravity data, forces, part2, boundary check, tree update, collision search in that order; tree.c component triples are isomorphic; all tree-in-use predicates agree.',
+        not_decided='tree shape invariants under incremental updates (each particle in exactly one leaf whose cell contains it) and equality of cell sums with their contents - needs shape analysis, out of reach',
+        design_ref='3/C15'),
     'C17': dict(
         module='c17', level='other',
         technique='who-reads-what over the differ and reader (clang AST + record layouts + descriptor table): pointer-blind compare, ignore-set exactness, accumulation form, allocation discipline',
